@@ -59,8 +59,29 @@ static long file_round(int it, const char *dir){ char pa[256], pb[256]; snprintf
     if((long)st.st_size+atomic_load(&unwritten)!=(long)total || atomic_load(&berr)) fail("a write to file B was cut short when a read on file A failed with EBADF (another descriptor on the same device): bytes in the file / bytes reported unwritten / error - of a write of (see round)",(long)st.st_size,atomic_load(&unwritten),atomic_load(&berr)); }
   else if(atomic_load(&got)!=(long)total || atomic_load(&berr)) fail("a read of file B was cut short, reported as complete without end of file, when a read on file A failed with EBADF (another descriptor on the same device): bytes delivered / bytes requested / error",atomic_load(&got),(long)total,atomic_load(&berr));
   dispatch_io_close(ca,0); dispatch_io_close(cb,0); dispatch_release(ca); dispatch_release(cb); dispatch_sync(q,^{}); usleep(2000); dispatch_release(q); close(fa); close(fb); unlink(pa); unlink(pb); free(big); return 1; }
+// (c) the victim on the SAME descriptor of a regular file, already picked by the disk (active) when the read fails: a large write W0 under
+// way, a read (EBADF: the descriptor is open for writing only), a small write W1 elsewhere in the file, a plain close. Every handler
+// sees done exactly once; for each write, bytes in the file + bytes reported unwritten = bytes submitted; nothing traps (F45: the
+// cleanup completed the active operation, whose own perform then completed it again).
+static long file_same_fd_round(int it, const char *dir){ char pa[256]; snprintf(pa,sizeof pa,"%s/eb-s-%d-%d",dir,(int)getpid(),it); int fd=open(pa,O_WRONLY|O_CREAT|O_TRUNC,0600); if(fd<0) return 0;
+  size_t w0=(size_t)(512+rnd()%1024)<<10; char *b0=malloc(w0); memset(b0,'a',w0);
+  dispatch_queue_t q=dispatch_queue_create("eb.s",NULL); __block _Atomic int d0=0,d1=0,d2=0,e0=-1,e1=-1,e2=-1,cl=0; __block _Atomic long u0=-1,u2=-1;
+  dispatch_io_t ch=dispatch_io_create(DISPATCH_IO_RANDOM,fd,q,^(int e){ (void)e; atomic_fetch_add(&cl,1); }); if(!ch) return 0; dispatch_io_set_high_water(ch,4096);
+  dispatch_data_t x0=dispatch_data_create(b0,w0,NULL,DISPATCH_DATA_DESTRUCTOR_FREE), x1=dispatch_data_create("WWWWWWWWWW",10,NULL,DISPATCH_DATA_DESTRUCTOR_DEFAULT);
+  dispatch_io_write(ch,0,x0,q,^(bool dn,dispatch_data_t d,int e){ if(dn){ atomic_store(&u0,d?(long)dispatch_data_get_size(d):0); atomic_store(&e0,e); atomic_fetch_add(&d0,1); } });
+  if(rnd()%4==0) usleep((useconds_t)(rnd()%300));
+  dispatch_io_read(ch,0,10,q,^(bool dn,dispatch_data_t d,int e){ (void)d; if(dn){ atomic_store(&e1,e); atomic_fetch_add(&d1,1); } });
+  dispatch_io_write(ch,(off_t)(4<<20),x1,q,^(bool dn,dispatch_data_t d,int e){ if(dn){ atomic_store(&u2,d?(long)dispatch_data_get_size(d):0); atomic_store(&e2,e); atomic_fetch_add(&d2,1); } });
+  dispatch_release(x0); dispatch_release(x1); dispatch_io_close(ch,0);
+  for(int k=0; k<100000 && !(atomic_load(&d0)&&atomic_load(&d1)&&atomic_load(&d2)&&atomic_load(&cl)); k++) usleep(100);
+  usleep(3000);
+  if(atomic_load(&d0)!=1||atomic_load(&d1)!=1||atomic_load(&d2)!=1||atomic_load(&cl)!=1) fail("write, failing read (EBADF), write on one write-only file descriptor, then close: the handlers did not each see done exactly once / the cleanup handler did not run once (10 s): done counts of the large write, the read, the small write",atomic_load(&d0),atomic_load(&d1),atomic_load(&d2));
+  else { struct stat st; fstat(fd,&st); long in_file = st.st_size > (off_t)w0 ? (long)w0 : (long)st.st_size;        // W0 writes [0, w0)
+    if(atomic_load(&e0)==0 && atomic_load(&u0)!=0) fail("a write reported unwritten data without an error",atomic_load(&u0),0,0);
+    if(atomic_load(&u0)>=0 && in_file+atomic_load(&u0) < (long)w0) fail("write conservation on a descriptor where another operation failed with EBADF: bytes of the large write in the file / reported unwritten / submitted",in_file,atomic_load(&u0),(long)w0); }
+  dispatch_release(ch); dispatch_sync(q,^{}); dispatch_release(q); close(fd); unlink(pa); return 1; }
 int main(int argc,char**argv){ seed=argc>1?strtoull(argv[1],0,0):1; int rounds=argc>2?atoi(argv[2]):20; rs=seed; const char *dir=argc>3?argv[3]:"/var/tmp";
   signal(SIGILL,on_crash); signal(SIGSEGV,on_crash); signal(SIGABRT,on_crash); signal(SIGBUS,on_crash); signal(SIGPIPE,SIG_IGN);
-  long n=0; for(int i=0;i<rounds && !viol;i++){ n+=stream_round(i); if(i%4==0 && !viol) n+=file_round(i,dir); }
+  long n=0; for(int i=0;i<rounds && !viol;i++){ n+=stream_round(i); if(i%4==0 && !viol) n+=file_round(i,dir); if(!viol) n+=file_same_fd_round(i,dir); if(!viol) n+=file_same_fd_round(i+1000,dir); }
   if(viol){ printf("ORACLE VIOL seed=%llu %s\n",(unsigned long long)seed,vmsg); fflush(stdout); _exit(1); }
   printf("ORACLE ok items=%ld\n",n); fflush(stdout); _exit(0); }
